@@ -284,6 +284,51 @@ def gen_cases(r, tier, n_random=8):
     return cases
 
 
+def stack_plain(d):
+    js = json.dumps(d)
+    return '"ann"' not in js and '"str"' not in js
+
+
+def gen_stack_cases(r, tier):
+    """mappings of the stack representation on hierarchies its model covers (no metahandler annotation, no string field): lists,
+    tuples, unions, a standalone class used as a field type, weighted productions, an abstract and
+    a concrete start symbol, genotypes too short to finish"""
+    big = tier == "thorough"
+    FLOAT = ["base", "float"]
+    W = lambda c, w: dict(c, weight=w)  # noqa: E731
+    fam = [
+        H([A(), P(0, INT), P(0, S(0), ["list", S(0)])]),
+        H([A(), P(0, BOOL), P(0, S(0), S(0))]),
+        H([A(), P(0, INT), P(0, S(0), S(0)), P(0, S(2), S(0))], start=2),
+        H([A(), P(0), P(0, ["union", [S(0), INT]], ["tuple", [BOOL, INT]])]),
+        H([A(), P(0, FLOAT), P(0, ["tuple", [S(0), S(0)]]), P(0, ["list", INT], BOOL)]),
+        H([A(), W(P(0, INT), [2, 1]), W(P(0, S(0), S(0)), [1, 1]), A(0, True), P(3, BOOL)]),   # normalised weights 1/2, 1/4, 1/4: exact as floats
+        H([A(), P(None, INT, BOOL), P(0, S(1)), P(0, S(1), S(0))]),           # a standalone class as a field type
+        H([A(), P(0, ["union", [INT, BOOL, S(0)]]), P(0, ["list", ["tuple", [INT, S(0)]]]), P(0)]),
+        H([A(), A(0, True), P(1, INT), P(1, S(0), S(1)), P(0, ["list", S(1)])]),
+        # concrete classes that mention themselves through a list / a union / each other (F47)
+        H([A(), P(0, INT), P(0, ["list", S(2)])]),
+        H([A(), P(0, BOOL), P(0, ["union", [S(2), INT]], S(3)), P(0, ["tuple", [S(2), BOOL]])], start=1),
+    ]
+    cases = []
+    for d in fam:
+        for gl in ((300, 40, 7) if not big else (300, 400, 40, 12, 7, 3)):
+            for _ in range(1 if not big else 3):
+                ops = [["create"]] * 4 + [["map", 0], ["map", 1], ["map", 2], ["map", 3], ["mutate", 0], ["map", 4], ["cross", 1, 2], ["map", 5], ["map", 6], ["map", 0]]
+                cases.append({"op": "rep", "decl": d, "rep": {"kind": "stack", "gene_length": gl}, "seed": r.randrange(10**6), "ops": ops})
+    n = 0
+    while n < (10 if not big else 40):
+        d = grammars.gen_decl(r, {"weights": False, "tuples": True, "dependent": False})
+        # (no weights on the generated hierarchies: normalised weights such as 1/3 are rounded as floats and their running sums
+        # truncate differently from the model's exact rationals - outside the model, DESIGN section 8, floats)
+        if not stack_plain(d):
+            continue
+        n += 1
+        cases.append({"op": "rep", "decl": d, "rep": {"kind": "stack", "gene_length": r.choice([300, 60])}, "seed": r.randrange(10**6),
+                      "ops": [["create"]] * 3 + [["map", 0], ["map", 1], ["map", 2], ["map", 0]]})
+    return cases
+
+
 def variation_family():
     """hierarchies for the representation-level parts of C01 / C10: same-typed fields that are not adjacent,
     a float field, an abstract symbol that is mentioned but has no production among the supplied classes"""
